@@ -59,10 +59,12 @@ def base_library(i):
         from .. import bigdocs
 
         return bibtexparser.parse_string(bigdocs.document(130, 1)[0] + "\n@article{Key0:x, dup = {d}}\n@broken{zz, a b}\n")
+    if i == n + 6:  # bare (unenclosed) name values turned into lists; enclosing metadata present
+        return bibtexparser.parse_string("@a{k, author = smith, editor = {A B and C D}, year = 1999, note = other}", append_middleware=[mw.SeparateCoAuthors()])
     raise IndexError(i)
 
 
-NLIBS = len(DOCS) + 6
+NLIBS = len(DOCS) + 7
 
 
 def pool():
